@@ -17,8 +17,12 @@ PROPERTY = "C17"
 TRACE = "T_CropExtend"
 ENUM = {
     "quick":    [dict(module="MC_CropExtend", cfg="MC_CropExtend_quick.cfg", workers=8)],
-    "thorough": [dict(module="MC_CropExtend", cfg="MC_CropExtend_thorough.cfg", workers=16, coverage=True)],
+    # TLC prints interim coverage reports every minute and the engine takes an interim zero for a dead action, so the
+    # coverage guard runs on the small sub-universe "cov" (contained in both tiers: an action taken there is taken in them)
+    "thorough": [dict(module="MC_CropExtend", cfg="MC_CropExtend_thorough.cfg", workers=16),
+                 dict(module="MC_CropExtend", cfg="MC_CropExtend_cov.cfg", workers=4, coverage=True, expect_cases=False)],
 }
+PROOFS = ["proofs/P_CropExtend.tla"]  # thorough tier: extents contain the axis, exact width, centre offsets for all integers (tlapm)
 POOL = 12
 CHUNK = 2500
 RULE = ("every call of the TLA+ enumeration: crop (step, start, length, interval ends on half/quarter steps inside the axis, "
@@ -156,3 +160,27 @@ def nontrivial(o):
     if c["kind"] == "crop":
         return c["ms"] > 0 or c["me"] < 4 * (c["n"] - 1) or not c["lc"] or not c["rc"]
     return c["ms"] <= -4 or c["me"] >= 4 * c["n"]
+
+
+MANIFEST = {
+    "text": ("CropExtend.tla states crop_dim / extend_dim / adjust_dim_width on the quarter-step lattice of a regular axis whose "
+             "sample i carries the datum i+1: crop = indices whose coordinate lies in the interval with the requested closedness; "
+             "extend = the lattice points of the axis' own lattice inside the interval, old samples on their old coordinates "
+             "(same doubles), new ones = fill; width = exactly w samples with the original block at start / centre (floor or "
+             "ceil) / end. MC_CropExtend.tla transcribes the three implementations as state machines with the open-end epsilon "
+             "as an infinitesimal and the floating-point length of np.arange as explicit nondeterminism ('q or q+1' on "
+             "non-representable steps); TLC checks Impl => Req and the laws of Req on the bounded universe and shows the two "
+             "defects found (spec/history: extend_dim_width returning width+1; extend_dim returning the point at an open end) "
+             "and their absence in the repaired algorithms. Every enumerated call (6-10 steps incl. 0.1, 0.01, 1/3, 1/44100; "
+             "lengths <= 6-7; all interval ends on half/quarter steps; widths 1..2n+3; step from attribute or estimated) plus "
+             "seeded random calls on longer axes is executed on the real code and TLC validates the recorded coordinates "
+             "(IEEE bit patterns, compared in TLA+) and data clause by clause. Thorough tier adds division-free laws for all "
+             "integers proved by tlapm."),
+    "note": ("trusted: TLC, the binder checks/c17.py (builds axes with numpy, encodes doubles; no expected values). Exact verdicts for "
+             "sample identity, counts, placement, fill and coordinate identity on every step; coordinates of new samples exact on "
+             "dyadic steps and within ~1e-9 step otherwise. Boundary guard: on a non-representable step the lattice point "
+             "nominally AT an open end of extend_dim is accepted iff the double produced is strictly inside the interval. Not "
+             "judged (not in the statement): values/coordinates of the samples added by extend_dim_width, None defaults of "
+             "start/stop, steps comparable to the 1e-5 epsilon. Bounded universe + seeded random; small-scope hypothesis beyond."),
+    "design_ref": "DESIGN.md section 4 C17, section 5 F14",
+}
